@@ -55,6 +55,26 @@ func genC14Arg(t *rapid.T) c14Arg {
 	}
 }
 
+// c14Variant returns the sugared logger itself or an equivalent one obtained
+// through another constructor path (none of them adds context or a name).
+func c14Variant(t *rapid.T, s *zap.SugaredLogger) *zap.SugaredLogger {
+	switch rapid.SampledFrom([]string{"plain", "plain", "WithOptions", "Desugar.Sugar", "Named(empty)", "With()", "WithOptions.WithOptions", "Desugar.WithOptions.Sugar"}).Draw(t, "loggerVariant") {
+	case "WithOptions":
+		return s.WithOptions(zap.AddCallerSkip(0))
+	case "Desugar.Sugar":
+		return s.Desugar().Sugar()
+	case "Named(empty)":
+		return s.Named("")
+	case "With()":
+		return s.With()
+	case "WithOptions.WithOptions":
+		return s.WithOptions().WithOptions(zap.AddCallerSkip(0))
+	case "Desugar.WithOptions.Sugar":
+		return s.Desugar().WithOptions(zap.AddCallerSkip(0)).Sugar()
+	}
+	return s
+}
+
 // c14Reference is the independent sweep written from the documentation of
 // SugaredLogger.With.
 type c14Diag struct {
@@ -247,7 +267,7 @@ func propC14Args(t *rapid.T) {
 	}
 	core, logs := observer.New(enab)
 	term := new(int64)
-	s := zap.New(core, zap.WithFatalHook(countHook{term}), zap.WithPanicHook(countHook{term})).Sugar()
+	s := c14Variant(t, zap.New(core, zap.WithFatalHook(countHook{term}), zap.WithPanicHook(countHook{term})).Sugar())
 	lvl := rapid.SampledFrom(c14Levels).Draw(t, "level")
 	mode := rapid.SampledFrom([]string{"w", "logw", "with", "withlazy", "with+w", "withlazy-delayed", "with-delayed"}).Draw(t, "mode")
 	msg := genStr().Draw(t, "msg")
@@ -513,7 +533,14 @@ func propC14Messages(t *rapid.T) {
 func propC14TwoCalls(t *rapid.T) {
 	core, logs := observer.New(zapcore.DebugLevel)
 	term := new(int64)
-	s := zap.New(core, zap.WithFatalHook(countHook{term}), zap.WithPanicHook(countHook{term})).Sugar()
+	// the first call may be at Panic level with the real panic action (recovered by the caller, as a server's
+	// request handler would); the logger must be as good as new for the second call
+	realPanic := rapid.IntRange(0, 3).Draw(t, "firstCallPanics") == 0
+	opts := []zap.Option{zap.WithFatalHook(countHook{term})}
+	if !realPanic {
+		opts = append(opts, zap.WithPanicHook(countHook{term}))
+	}
+	s := c14Variant(t, zap.New(core, opts...).Sugar())
 	gen := func(label string) ([]c14Arg, []any) {
 		n := rapid.IntRange(1, 7).Draw(t, label)
 		ca := make([]c14Arg, n)
@@ -528,12 +555,24 @@ func propC14TwoCalls(t *rapid.T) {
 	c2, a2 := gen("nArgs2")
 	mode1 := rapid.SampledFrom([]string{"w", "with", "withlazy"}).Draw(t, "mode1")
 	mode2 := rapid.SampledFrom([]string{"w", "with", "withlazy"}).Draw(t, "mode2")
+	first := true
 	call := func(mode, msg string, args []any) {
 		defer func() {
-			if p := recover(); p != nil {
+			if p := recover(); p != nil && !(first && realPanic && fmt.Sprint(p) == msg) {
 				t.Fatalf("sugared call panicked: %v", p)
 			}
 		}()
+		if first && realPanic {
+			switch mode {
+			case "w":
+				s.Panicw(msg, args...)
+			case "with":
+				s.With(args...).Panic(msg)
+			case "withlazy":
+				s.WithLazy(args...).Panic(msg)
+			}
+			t.Fatalf("Panicw returned normally")
+		}
 		switch mode {
 		case "w":
 			s.Infow(msg, args...)
@@ -551,10 +590,22 @@ func propC14TwoCalls(t *rapid.T) {
 		return out
 	}
 	call(mode1, "first", a1)
+	first = false
 	n1 := logs.Len()
 	snap := render(logs.All())
 	call(mode2, "second", a2)
 	all := logs.All()
+	// the second call's own entry carries exactly its own arguments (nothing left over from the first call)
+	wantF2, wantD2 := c14Reference(a2)
+	if second := all[n1:]; len(second) != 1+len(wantD2) {
+		t.Fatalf("second call produced %d entries, reference expects 1 + %d diagnostics\n first args %s (%s, panics=%v)\n second args %s (%s)", len(second), len(wantD2), renderArgs(c1), mode1, realPanic, renderArgs(c2), mode2)
+	} else {
+		for _, e := range second {
+			if e.Message == "second" && recString(e.Context...) != recString(wantF2...) {
+				t.Fatalf("main entry of the second call differs from the reference sweep:\n got  %s\n want %s\n first args %s (%s, panics=%v)\n second args %s (%s)", clipS(recString(e.Context...)), clipS(recString(wantF2...)), renderArgs(c1), mode1, realPanic, renderArgs(c2), mode2)
+			}
+		}
+	}
 	after := render(all[:n1])
 	for i := range snap {
 		if snap[i] != after[i] {
@@ -563,14 +614,14 @@ func propC14TwoCalls(t *rapid.T) {
 	}
 	// and the first call's entries are what the reference says (diagnostics matched as in propC14Args)
 	wantFields, wantDiags := c14Reference(a1)
-	first := all[:n1]
-	if len(first) != 1+len(wantDiags) {
-		t.Fatalf("first call produced %d entries, reference expects 1 + %d diagnostics", len(first), len(wantDiags))
+	firstEs := all[:n1]
+	if len(firstEs) != 1+len(wantDiags) {
+		t.Fatalf("first call produced %d entries, reference expects 1 + %d diagnostics", len(firstEs), len(wantDiags))
 	}
-	used := make([]bool, len(first))
+	used := make([]bool, len(firstEs))
 	for _, d := range wantDiags {
 		found := false
-		for i, e := range first {
+		for i, e := range firstEs {
 			if used[i] || e.Level != zapcore.ErrorLevel || e.Message == "first" {
 				continue
 			}
@@ -580,10 +631,10 @@ func propC14TwoCalls(t *rapid.T) {
 			}
 		}
 		if !found {
-			t.Fatalf("after a second sugared call, no error-level entry of the first call identifies its %s item any more\n first args %s (%s)\n second args %s (%s)\n entries %v", d.kind, renderArgs(c1), mode1, renderArgs(c2), mode2, first)
+			t.Fatalf("after a second sugared call, no error-level entry of the first call identifies its %s item any more\n first args %s (%s)\n second args %s (%s)\n entries %v", d.kind, renderArgs(c1), mode1, renderArgs(c2), mode2, firstEs)
 		}
 	}
-	for _, e := range first {
+	for _, e := range firstEs {
 		if e.Message == "first" && recString(e.Context...) != recString(wantFields...) {
 			t.Fatalf("main entry of the first call differs from the reference after the second call:\n got  %s\n want %s", clipS(recString(e.Context...)), clipS(recString(wantFields...)))
 		}
